@@ -80,6 +80,13 @@ DEEP_S_T = dict(DEEP_S, name="deep_s_t", simulate="num=400", rounds=2)
 DEEP_X = R("deep_x", "deep_x.cfg", rounds=1, simulate="num=25", depth=10, workers=4,
            expect_ops=["elide_set", "add_signature", "seal", "encrypt_subject_to_recipients", "proof_contains_set", "obs_confirm", "add_attachment", "forge_signed", "tamper", "sskr_join", "obs_verify"])
 DEEP_X_T = dict(DEEP_X, name="deep_x_t", simulate="num=300", rounds=2, timeout=3000)
+OBSCURE_T = R("obscure_t", "obscure_t.cfg", rounds=2, timeout=3000, expect_ops=["elide_set", "elide", "compress", "encrypt_subject", "unelide"])
+SSKR_T = R("sskr_t", "sskr_t.cfg", rounds=1, timeout=3000, expect_ops=["sskr_split_join"], expect_out=["sskr_split_join:ok", "sskr_split_join:err"])
+QUERY_T = R("query_t", "query_t.cfg", rounds=2, timeout=3000, expect_ops=["obs_walk", "obs_digests", "obs_lookup", "obs_extract", "obs_structure", "obs_tree_format", "obs_format"])
+COMPARE_T = R("compare_t", "compare_t.cfg", rounds=2, timeout=3000, expect_ops=["obs_compare"])
+EXPR_T = R("expr_t", "expr_t.cfg", rounds=2, timeout=3000, expect_ops=["expression", "request", "response", "event", "malform", "obs_parse"])
+ATTACH_T = R("attach_t", "attach_t.cfg", rounds=2, timeout=3000, expect_ops=["add_attachment", "add_bad_attachment", "add_type", "obs_types", "obs_attachments"])
+PROOF_T = R("proof_t", "proof_t.cfg", rounds=1, timeout=3000, expect_ops=["proof_contains_set", "obs_confirm"])
 
 FORGE_Q = R("forge_q", "forge_q.cfg", expect_ops=["forge_encrypted", "forge_compressed", "tamper", "corrupt", "decrypt_subject", "uncompress_subject"], expect_out=["decrypt_subject:err", "uncompress_subject:err", "uncompress_subject:ok"])
 
@@ -92,19 +99,22 @@ PLAN = {
     "C02": dict(
         rule="every shape of <= 5 elements x every target subset (<= 3 digests incl. an absent one) x both modes x {elide, encrypt, compress} and the whole-envelope calls, then a second obscuring call (also on nodes: reelide_q = progressive redaction of nodes, node-subject nodes, decorated assertions) on the result; digests at every surviving position compared with the specification's terms",
         quick=[OBS_Q, OBS_Q2, OBS_Q3, REELIDE_Q],
+        thorough=[OBS_Q, OBS_Q2, OBS_Q3, REELIDE_Q, OBSCURE_T, DEEP_S_T, DEEP_X_T],
     ),
     "C03": dict(
         rule="as C02; the expected tree says exactly which positions are hidden, the serialized bytes must equal the evaluated wire term (no residue), unelide with every register pair",
         quick=[OBS_Q, OBS_Q2, REELIDE_Q, OBS_Q3],
+        thorough=[OBS_Q, OBS_Q2, REELIDE_Q, OBS_Q3, OBSCURE_T, DEEP_S_T, DEEP_X_T],
     ),
     "C04": dict(
         rule="all mutating action families from the empty register file, depth <= 3 (all families) and <= 4 (construct/assertions/wrap); serialized bytes of every result must equal the evaluated wire term whose node arrays are sorted by the real digest bytes",
         quick=[CORE_ALL3, TWIN_Q, TRACE_WALK, TRACE_ORDER, DEEP_S],
-        thorough=[CORE_ALL3, CORE_T, TWIN_Q, TRACE_WALK_T, TRACE_ORDER, DEEP_S_T],
+        thorough=[CORE_ALL3, CORE_T, TWIN_Q, TRACE_WALK_T, TRACE_ORDER, DEEP_S_T, DEEP_X_T],
     ),
     "C05": dict(
         rule="encode->decode (bytes, CBOR value and UR string variants) of every envelope reachable in the bounded machine; decoded projection identical and re-encoding byte-identical",
         quick=[CORE_ALL3, DECODE_Q],
+        thorough=[CORE_ALL3, CORE_T, DECODE_Q, DECODE_T, TRACE_WALK_T, DEEP_S_T],
     ),
     "C07": dict(
         rule="all insertion sequences of the bounded machine; results compared with the order-free (set based) specification term, byte for byte",
@@ -114,20 +124,22 @@ PLAN = {
     "C08": dict(
         rule="every shape (<= 4 elements, nodes of 5) x keys {k1,k2} x encrypt_subject / encrypt / elide_set(Encrypt), then a key-holding adversary (forge_encrypted: content vs declared digest mismatch for every register pair; tamper: ciphertext / nonce / tag / aad, random bit per round) or add_assertion / second encryption, then decrypt_subject / decrypt with each key",
         quick=[ENCRYPT_Q, FORGE_Q],
-        thorough=[ENCRYPT_Q, dict(ENCRYPT_Q, name="encrypt_t", cfg="encrypt_t.cfg", rounds=3)],
+        thorough=[ENCRYPT_Q, FORGE_Q, dict(ENCRYPT_Q, name="encrypt_t", cfg="encrypt_t.cfg", rounds=3), DEEP_X_T],
     ),
     "C13": dict(
         rule="every shape x {compress, compress_subject, elide_set(Compress)} x {uncompress, uncompress_subject} chains, compressed elements as subject of add_assertion, forged (content, declared digest) pairs for every register pair, corrupt payloads (data bit, checksum, truncation)",
         quick=[COMPRESS_Q, FORGE_Q],
-        thorough=[COMPRESS_Q, dict(COMPRESS_Q, name="compress_t", cfg="compress_t.cfg", rounds=3)],
+        thorough=[COMPRESS_Q, FORGE_Q, dict(COMPRESS_Q, name="compress_t", cfg="compress_t.cfg", rounds=3), DEEP_X_T],
     ),
     "C14": dict(
         rule="all ordered pairs (r1, r2) of registers where the registers hold a shape, an obscured variant of it under each action (one or two obscuring steps), a re-decoded copy or an unrelated shape; is_equivalent_to, is_identical_to, == and structural_digest compared with the specification (structural image evaluated by SHA-256)",
         quick=[COMPARE_Q],
+        thorough=[COMPARE_Q, COMPARE_T, DEEP_X_T],
     ),
     "C15": dict(
         rule="every shape of <= 5 elements, node-subject nodes and decorated assertions, and their obscured variants: both walk modes (visit sequence with level, edge, parent), digests(k) for every k, the predicate lookup family for every simple value / predicate present, typed extraction for 12 types; basic accessors and their try_/as_/is_ forms; tree_format line by line; format() / format_flat() against the layout of the notation term (Queries!Notation)",
         quick=[QUERY_Q],
+        thorough=[QUERY_Q, QUERY_T, DEEP_X_T],
     ),
     "C16": dict(
         rule="every call of every configuration runs under catch_unwind; a panic is never an allowed outcome. This check runs the query / lookup / extraction family and the transform / obscure families on every shape, node-subject nodes, decorated (assertion-on-assertion) shapes and their obscured variants, and random histories of 10 calls over EVERY family of the machine (deep_x, TLC simulation: core, salt, signatures and forged signatures, recipients, SSKR, proofs, types, attachments, adversarial forge / tamper, all observations) on 3 registers",
@@ -142,29 +154,32 @@ PLAN = {
     "C09": dict(
         rule="subjects (leaf, wrapped, node) x signers {s1,s2} (scheme per chain: s1 deterministic - ECDSA, Ed25519, SSH-Ed25519; s2 randomised - Schnorr, ML-DSA44) with/without metadata x then another signature / a forged 'signed' assertion of 8 kinds / elision of any part / another assertion / a repeated signature by the same key after elision or compression of any part (sig_q2) x has_signature_from, verify_signature_from, verify, *_returning_metadata for every key list of length 1-2 and threshold none, 1..n+1",
         quick=[SIG_Q, SIG_Q2],
-        thorough=[SIG_Q, SIG_Q2, SIG_T],
+        thorough=[SIG_Q, SIG_Q2, SIG_T, DEEP_X_T],
     ),
     "C10": dict(
         rule="shapes x recipient lists of length 1-2 over {r1,r2} (X25519 / ML-KEM512 / ML-KEM768 per chain, duplicates allowed) x {encrypt_subject_to_recipients, encrypt_to_recipient, seal} then add_recipient / re-sharing by an existing recipient / another assertion, then decrypt_subject_to_recipient / decrypt_to_recipient / unseal with each private key and sender",
         quick=[RECIPIENT_Q],
-        thorough=[RECIPIENT_Q, dict(RECIPIENT_Q, name="recipient_t", cfg="recipient_t.cfg", rounds=2, timeout=3000)],
+        thorough=[RECIPIENT_Q, dict(RECIPIENT_Q, name="recipient_t", cfg="recipient_t.cfg", rounds=2, timeout=3000), DEEP_X_T],
     ),
     "C11": dict(
         rule="every SSKR policy with <= 2 groups of <= 3 members (78 policies) x every subset of the generated shares x shapes; shares of two splits mixed in registers (same key / different key / decrypted copy)",
         quick=[SSKR_Q, SSKR_MIX_Q],
+        thorough=[SSKR_Q, SSKR_MIX_Q, SSKR_T, DEEP_X_T],
     ),
     "C12": dict(
         rule="shapes (<= 3 elements, nodes of 5 incl. two-assertion nodes; repeated atoms give multi-position targets) x every target set of <= 2 digests incl. an absent one x proof_contains_set/target, then every ordered register pair (root, proof) - own proofs, proofs of other envelopes, further elided proofs - x target sets from both: confirm_contains_set/target by a verifier holding only the elided root",
         quick=[PROOF_Q],
+        thorough=[PROOF_Q, PROOF_T, DEEP_X_T],
     ),
     "C17": dict(
         rule="direction A: add_salt / add_salt_with_len(0,7,8,20) / add_salt_in_range / add_assertion(_envelope)_salted on shapes, then a second salting or predicate lookups; the salt leaf must parse as Salt (>= 8 bytes). direction B (trace): see saltsize run",
         quick=[SALT_Q, TRACE_SALT],
-        thorough=[SALT_Q, TRACE_SALT_T, TRACE_WALK_T],
+        thorough=[SALT_Q, TRACE_SALT_T, TRACE_WALK_T, DEEP_X_T],
     ),
     "C19": dict(
         rule="bases x multisets of <= 2 attachments (payload = any register, vendors v1,v2, conformsTo absent/c1/c2) and malformed attachment assertions of 6 kinds, types over known values and strings; all 12 (vendor, conformsTo) filter combinations in list and single-result form, payload/vendor/conformsTo of every returned attachment, types()/has_type/check_type/get_type",
         quick=[ATTACH_Q],
+        thorough=[ATTACH_Q, ATTACH_T, DEEP_X_T],
     ),
     "C20": dict(
         rule="(1) lock programs (Once gates, mutex acquire/release, dcbor tag-lock blips) extracted from the hooks of the current build for 11 call kinds (format, format_flat, tree_format, diagnostic_annotated, hex, register_tags, known-value / function / parameter lookups, encode, ur); TLC explores every interleaving of 3 threads x 2 calls (thorough: 4 x 2) over the distinct programs, all threads racing on first use: deadlock freedom, once-only initialisation, no lock held at return, termination under fairness; real stress runs of 2..16 racing threads in fresh processes with a 20 s watchdog, every result compared with the single-thread text, recorded lock events validated by TLC against LocksTrace; (2) the registries as a sequential state machine (Registry.tla: KnownValuesStore as two maps, functions / parameters stores, a format context as a copy of the stores with summarizers copied again at registration): every insert / make-context sequence of length <= 4 over 2 codes x 2 names, each followed by the full projection through the query API and format() / tree_format() of probe envelopes",
@@ -175,5 +190,6 @@ PLAN = {
     "C18": dict(
         rule="functions {known 1, known 2 (with and without a name), named f, named 1} x parameter lists of length 0-2 over {known 1, known 2, named p} with repeats x parameter values / payloads / contents of every envelope kind in the shape set (leaf, known value, wrapped, assertion, node, elided) x ids x notes {empty, n} x dates {absent, integral, fractional, negative} x response variants {success, failure, early failure; default and explicit payloads}; 14 single-part malformations; parse directly and through bytes, with and without an expected function",
         quick=[EXPR_Q],
+        thorough=[EXPR_Q, EXPR_T, DEEP_X_T],
     ),
 }
